@@ -270,6 +270,9 @@ func fieldAccesses1(fns []*ssa.Function, nt *types.Named) []FieldAccess {
 				if isServiceState(st.Field(fa.Field).Type()) {
 					continue // a nested state struct: its members are accounted for individually
 				}
+				if _, fresh := fa.X.(*ssa.Alloc); fresh && len(serviceStateTypes) > 0 && nt != serviceStateTypes[0] {
+					continue // a variable of the nested struct's type (a copy to report, a value being built), not the Service's own
+				}
 				for _, r := range *fa.Referrers() {
 					switch u := r.(type) {
 					case *ssa.Store:
